@@ -481,6 +481,7 @@ def r12_header_names(ctx):
             guarded = any((not pol) and "isinstance(" in unparse(t) and "Mapping" in unparse(t) for t, pol in all_guards(c_, f_))
             ctx.ob("C13.R12", ROWS, qual, c_, "positions of named columns come from the header map's values, not from enumerating the map", guarded, stmt=f"{qual}: enumerate(headers)")
     ctx.note(f"C13.R12: {n_enum} enumerations of a header map outside EncodeRows")
+    header_renumbering(ctx, "C13.R12")
     maps = [x for x in walk_shallow(md) if isinstance(x, ast.Assign) and isinstance(x.value, (ast.DictComp, ast.Call)) and "enumerate(" in unparse(x.value) and "chain(" in unparse(x.value)]
     ok = len(maps) == 1 and any(isinstance(g_, (ast.GeneratorExp, ast.ListComp)) and g_.generators[0].ifs for g_ in ast.walk(maps[0].value) if isinstance(g_, (ast.GeneratorExp, ast.ListComp)))
     ctx.ob("C13.R12", ROWS, "DropRows.make_drop_row_args", maps[0] if maps else md, "the name -> position map handed to KeepDense lists only the columns that survive the drop", ok, stmt="kept names only")
@@ -507,6 +508,21 @@ def r12_header_names(ctx):
             okx = unparse(v.value.slice) == pos_var and bool(m_defs) and all(old_to_new(d_) for d_ in m_defs)
     ctx.ob("C13.R12", ROWS, "DropRows.make_drop_row_args", ext[0] if ext else md, "the reduced row's header map sends each kept name to the new position OF ITS COLUMN (looked up by the column's old position)", okx,
            stmt="external headers by column position")
+
+
+def header_renumbering(ctx, rule):
+    """a view that drops columns shows every kept name at its position among the kept COLUMNS (old position minus the dropped ones in front of it); pairing the names with
+    0,1,2... in the order the wrapped map lists them is the same thing only when that map was written in column order"""
+    n = 0
+    for c in [c for c in ast.walk(ctx.model.modules[ROWS].tree) if isinstance(c, ast.ClassDef)]:
+        for f in [f for f in c.body if isinstance(f, ast.FunctionDef) and f.name == "headers"]:
+            n += 1
+            bad = [k for k in ast.walk(f) if isinstance(k, ast.Call) and ((call_name(k) == "enumerate" and k.args and "headers" in unparse(k.args[0]))
+                                                                            or (call_name(k) == "zip" and any(isinstance(a_, ast.Call) and call_name(a_) in ("count", "itertools.count", "range") for a_ in k.args)
+                                                                                and any("headers" in unparse(a_) for a_ in k.args)))]
+            ctx.ob(rule, ROWS, f"{c.name}.headers", (bad or [f])[0], "the positions a view shows for its names are computed from the wrapped positions, never by numbering the names in the order the wrapped map lists them",
+                   not bad, detail={"renumbering": [unparse(k)[:80] for k in bad]}, stmt=f"{c.name}.headers positions")
+    ctx.note(f"{rule}: {n} headers properties of row views examined")
 
 
 def r13_forwarding_getattr(ctx, rule="C13.R13"):
@@ -614,6 +630,12 @@ def r18_equality_by_contents(ctx, rule="C13.R18"):
             same = any(pol and isinstance(t, ast.Compare) and len(t.ops) == 1 and isinstance(t.ops[0], ast.Is) and {unparse(t.left), unparse(t.comparators[0])} == {SELF, O}
                        for t, pol in guards_of(r, eq))
             ctx.ob(rule, rel, f"{cname}.__eq__", r, "a result that can be true is computed from the contents of the view (or the other object IS this one)", reads or same, detail={"returns": unparse(v)[:100]})
+            if cname == "Sparse_" and not same:
+                # a mapping equals another only if NEITHER has an entry the other lacks: the other object's whole content (items / keys / len) takes part, not only look-ups of our own keys in it
+                whole = any(isinstance(x, ast.Call) and ((isinstance(x.func, ast.Attribute) and isinstance(x.func.value, ast.Name) and x.func.value.id == O and x.func.attr in ("items", "keys"))
+                                                         or (call_name(x) in ("len", "dict", "set") and x.args and isinstance(x.args[0], ast.Name) and x.args[0].id == O)) for x in ast.walk(v))
+                ctx.ob(rule, rel, f"{cname}.__eq__", r, "sparse equality is symmetric: the other mapping's own keys take part (a row is not equal to every mapping it is a subset of)", whole, detail={"returns": unparse(v)[:100]},
+                       stmt="Sparse_.__eq__ symmetric")
     ctx.floor(rule, "__eq__ methods of row classes", n, 2)
     # copies of the generic bases: what a view shows, not what it wraps (KeepDense over a list would give the dropped columns back, EncodeDense the raw strings)
     for cname in ("Dense_", "Sparse_"):
@@ -941,6 +963,8 @@ def _unguarded_fast_iter(tree):
 
 
 CONTROLS = [
+    ("a sparse row equals every mapping it is a subset of", PRIM, M.replace_expr("Sparse_.__eq__", "dict(self.items()) == dict(o.items())", "all((o[k] == v for k, v in self.items()))"), "C13.R18"),
+    ("DropOne numbers the kept names in the order the map lists them", ROWS, M.replace_stmt("DropOne.headers", lambda st: isinstance(st, ast.Return), "return dict(zip((h for h, i in self._row.headers.items() if i != ind), count()))"), "C13.R12"),
     ("Dense_.copy copies the wrapped list", PRIM, M.replace_stmt("Dense_.copy", lambda st: isinstance(st, ast.Return), "return self._row.copy() if self._row.__class__ is list else list(iter(self))"), "C13.R18"),
     ("Dense_ is falsy when what it wraps is", PRIM, M.insert_before("Dense_.__eq__", lambda st: True, "pass") if False else (lambda tree: _add_method(tree, "Dense_", "def __bool__(self):\n    return bool(self._row)")), "C13.R20"),
     ("HeadDense measures its header map", ROWS, M.replace_expr("HeadDense.__len__", "len(self._row)", "len(self.headers)"), "C13.R19"),
